@@ -17,7 +17,7 @@ CONSTANTS
   V2 = {"get", "*"}
   U2 = {}
   MemLabels = {"fa", "fb"}
-  MemSrcTags = {"same", "implicit", "org", "reg", "bad"}
+  MemSrcTags = {"same", "implicit", "org", "orgpfx", "reg", "bad"}
   SelfSrcTags = {"same", "implicit", "bad"}
 ACTION_CONSTRAINT Emit
 CHECK_DEADLOCK FALSE
